@@ -328,3 +328,80 @@ func dataDeps(v ssa.Value) map[*ssa.Parameter]bool {
 	walk(v)
 	return out
 }
+
+// forwardReaches: the value src can flow (forward data flow through element access, phis, local
+// cells, closure capture and arguments of static calls to module functions) into an argument of a
+// call for which sink reports true. Bounded; used for "the result of this getter is what gets copied".
+func forwardReaches(p *core.Prog, src ssa.Value, sink func(c ssa.CallInstruction, argIdx int) bool) bool {
+	seen := map[ssa.Value]bool{}
+	work := []ssa.Value{src}
+	push := func(v ssa.Value) {
+		if v != nil && !seen[v] {
+			work = append(work, v)
+		}
+	}
+	for len(work) > 0 && len(seen) < 6000 {
+		x := work[len(work)-1]
+		work = work[:len(work)-1]
+		if seen[x] {
+			continue
+		}
+		seen[x] = true
+		refs := x.Referrers()
+		if refs == nil {
+			continue
+		}
+		for _, ref := range *refs {
+			switch y := ref.(type) {
+			case *ssa.Store:
+				if y.Val == x {
+					push(addrBase(y.Addr))
+				}
+			case *ssa.MakeClosure:
+				lit, _ := y.Fn.(*ssa.Function)
+				for i, b := range y.Bindings {
+					if b == x && lit != nil && i < len(lit.FreeVars) {
+						push(lit.FreeVars[i])
+					}
+				}
+				push(y)
+			case *ssa.MapUpdate:
+				if y.Value == x || y.Key == x {
+					push(y.Map)
+				}
+			case ssa.CallInstruction:
+				cc := y.Common()
+				args := cc.Args
+				off := 0
+				if cc.IsInvoke() {
+					off = 1
+				}
+				for i, a := range args {
+					if a != x {
+						continue
+					}
+					if sink(y, i+off) {
+						return true
+					}
+					if b, ok := cc.Value.(*ssa.Builtin); ok && (b.Name() == "append" || b.Name() == "copy") {
+						if v, ok := y.(ssa.Value); ok {
+							push(v)
+						}
+						continue
+					}
+					if g := cc.StaticCallee(); g != nil && p.InModule(g) && i < len(g.Params) {
+						push(g.Params[i])
+					}
+				}
+				// the function value itself being called with captured state is followed through MakeClosure
+			case ssa.Value:
+				switch y.(type) {
+				case *ssa.Phi, *ssa.Slice, *ssa.MakeInterface, *ssa.ChangeType, *ssa.ChangeInterface, *ssa.Convert, *ssa.UnOp, *ssa.IndexAddr, *ssa.Index,
+					*ssa.FieldAddr, *ssa.Field, *ssa.Extract, *ssa.Range, *ssa.Next, *ssa.Lookup, *ssa.TypeAssert:
+					push(y)
+				}
+			}
+		}
+	}
+	return false
+}
